@@ -1,5 +1,5 @@
 """Per-property decision procedures (DESIGN.md section 6)."""
-import json, os
+import json, os, time
 import common
 from common import run_tlc, run_xtv, tlc_printed, check_vacuity, WORK, ToolError
 
@@ -676,11 +676,22 @@ def c18(run):
 
 # ----------------------------------------------------------------------------- C04 / totality
 
-def run_worker_batches(cases, worker_cmd, per_batch=20000, case_timeout=150, max_culprits=3):
-    """Feeds cases (dicts with id) to an isolated harness worker; a crash or a case that makes no progress
-    for `case_timeout` seconds is attributed to the case that was in progress and the rest is resumed in a
-    new worker.  The deadline is per case (time since the worker last reported anything), not per batch, so
-    that a loaded machine slows a run down without turning it into an alarm."""
+def _cpu_seconds(pid):
+    """CPU time (user + system) consumed so far by a process, from /proc; None when it is gone."""
+    try:
+        with open("/proc/%d/stat" % pid) as f:
+            fields = f.read().rsplit(")", 1)[1].split()
+        return (int(fields[11]) + int(fields[12])) / os.sysconf("SC_CLK_TCK")
+    except (OSError, IndexError, ValueError):
+        return None
+
+
+def run_worker_batches(cases, worker_cmd, per_batch=20000, cpu_limit=5.0, wall_limit=900, max_culprits=3):
+    """Feeds cases (dicts with id) to an isolated harness worker; a crash, or a case on which the worker burns
+    more than `cpu_limit` seconds of CPU time (or sits for `wall_limit` seconds) without reporting anything, is
+    attributed to the case that was in progress and the rest is resumed in a new worker.  CPU time, not
+    wall-clock time, is what is measured: a loaded machine slows a run down without turning it into an alarm,
+    and the slowest legitimate case (a 10 000-deep YAML flow mapping) needs about 0.8 s of it."""
     import subprocess, threading, select
     results = {}
     pending = list(cases)
@@ -700,12 +711,16 @@ def run_worker_batches(cases, worker_cmd, per_batch=20000, case_timeout=150, max
             threading.Thread(target=feed, daemon=True).start()
             begun, timed_out, buf = None, False, b""
             fd = p.stdout.fileno()
+            cpu_mark, wall_mark = _cpu_seconds(p.pid) or 0.0, time.time()
             while True:
-                r, _, _ = select.select([fd], [], [], case_timeout)
+                r, _, _ = select.select([fd], [], [], 1.0)
                 if not r:
-                    timed_out = True
-                    p.kill()
-                    break
+                    cpu = _cpu_seconds(p.pid)
+                    if (cpu is not None and cpu - cpu_mark > cpu_limit) or time.time() - wall_mark > wall_limit:
+                        timed_out = True
+                        p.kill()
+                        break
+                    continue
                 d = os.read(fd, 1 << 16)
                 if not d:
                     break
@@ -724,6 +739,7 @@ def run_worker_batches(cases, worker_cmd, per_batch=20000, case_timeout=150, max
                         results[rec["id"]] = {"res": rec["res"], "msg": rec.get("msg", "")}
                         if rec["id"] == begun:
                             begun = None
+                cpu_mark, wall_mark = _cpu_seconds(p.pid) or cpu_mark, time.time()
             rc = p.wait()
             rest = [c for c in batch if c["id"] not in results]
             if not rest:
@@ -732,7 +748,8 @@ def run_worker_batches(cases, worker_cmd, per_batch=20000, case_timeout=150, max
                 raise ToolError("worker %s ended early without a crash" % worker_cmd)
             culprit = begun if begun is not None else rest[0]["id"]
             culprits += 1
-            results[culprit] = {"res": "timeout" if timed_out else "signal", "msg": "worker %s (status %s)" % ("made no progress for %d s" % case_timeout if timed_out else "died", rc)}
+            results[culprit] = {"res": "timeout" if timed_out else "signal",
+                                "msg": "worker %s (status %s)" % ("spent more than %.0f s of CPU time on this case" % cpu_limit if timed_out else "died", rc)}
             batch = [c for c in rest if c["id"] != culprit]
     return results
 
@@ -775,8 +792,12 @@ def c04(run):
     tmp = os.path.join(WORK, "total-%s" % run.tier)
     os.makedirs(tmp, exist_ok=True)
 
+    slow = {"n": 0}      # runs that missed their deadline: after three of them the rest of the stage is skipped
+
     def one(job):
         i, c = job
+        if slow["n"] >= 3:
+            return None
         path = os.path.join(tmp, "in_%d.bin" % i)
         with open(path, "wb") as f:
             f.write(bytes.fromhex(c["hex"]))
@@ -788,14 +809,16 @@ def c04(run):
             r = cli.run_xt(binary, args, stdin_path=path, timeout=60, stdout=subprocess.DEVNULL)
         os.remove(path)
         resv = "timeout" if r["timeout"] else "signal" if r["signal"] else "ok" if r["exit"] == 0 else "err" if r["exit"] == 1 else "exit%s" % r["exit"]
+        if r["timeout"]:
+            slow["n"] += 1
         return {"ev": "call", "runner": "debug" if i % 2 else "release", "label": c["label"], "from": c["from"], "to": c["to"], "mode": c["mode"],
                 "res": resv, "msg": r["stderr"].decode("utf-8", "replace")[:100], "signal": r["signal"], "hex": c["hex"][:400]}
-    records += cli.pmap(one, list(enumerate(sel)), workers=12)
+    records += [r for r in cli.pmap(one, list(enumerate(sel)), workers=12) if r is not None]
     run.evaluations += len(records)
     run.nontrivial += len({(r["label"], r.get("hex", str(i)), r["from"], r["to"], r["mode"], r["runner"]) for i, r in enumerate(records)})
     run.samples += [r for r in records if r["label"] != "tokens"][:3] + records[:2]
     validate_records(run, records, "XtTotal.tla", "XtTotal.cfg", "a call did not end in success or an error value", "xttotal")
-    run.assumptions += ["deadline: 150 s without progress for one in-process case (the slowest, a 20 000-deep YAML flow mapping, takes about 3 s on an idle machine), 60 s per binary run; after 3 crashes or missed deadlines the in-process run is cut short", "stack overflow is observed as the death of the isolated worker / binary"]
+    run.assumptions += ["deadline: 5 s of CPU time for one in-process case (the slowest, a 10 000-deep YAML flow mapping, needs about 0.8 s), 60 s of wall-clock time per binary run; after 3 crashes or missed deadlines the in-process run is cut short", "stack overflow is observed as the death of the isolated worker / binary"]
     run.exhaustive = False
 
 
